@@ -1,15 +1,342 @@
-/* C11 harness (types part): same case lines as ocaml/drv_c11.ml */
+/* C11 harness: same case lines as ocaml/drv_c11.ml, answered by the REAL code.
+ *
+ *   cmp a b | kind a                      hwloc_compare_types / kind predicates
+ *   tsn T CD CT GD BU BD OS FLAGS         hwloc_obj_type_snprintf on a hand-made object, every size 0..needed+1
+ *                                         (exactly-sized malloc blocks filled with 0xAA), then the round trip
+ *                                         hwloc_type_sscanf(text) evaluated on the C side
+ *   asn T TOT LOC CS CL CA BU BD BDOM BSEC BSUB PDOM PBUS PDEV PFUNC PVEN PDEVID PCLS CLSTXT LINK LINKTXT SEP FLAGS N (NAME VALUE)*
+ *                                         hwloc_obj_attr_snprintf likewise (strings are hex, "-" = empty)
+ *   ssc HEX ASZ | ssc! HEX ASZ            hwloc_type_sscanf on an exactly-sized malloc copy; ASZ = -1: attrp NULL;
+ *                                         "ssc!" runs the call in a forked child (a sanitizer report is answered OOB)
+ *   tstr T                                hwloc_obj_type_string + its round trip
+ *   q cls ID | q lnk FLOAT                opaque pieces for the generator (class string, "%.2f" text)
+ *   topo xml PATH | topo synthetic DESC   load; print one "obj ..." line per object (fields for tsn/asn),
+ *                                         the per-level type texts, and the C-side contract check of every object
+ *
+ * A call that does not return within 150 ms of CPU time is answered LOOP, an
+ * assert() failure ASSERT (SIGVTALRM / SIGABRT handlers jump out of the call). */
+#define _GNU_SOURCE
 #include "private/autogen/config.h"
 #include "hwloc.h"
 #include "private/private.h"
 #include "private/misc.h"
 #include <stdio.h>
+#include <stdlib.h>
 #include <string.h>
+#include <signal.h>
+#include <setjmp.h>
+#include <unistd.h>
+#include <sys/time.h>
+#include <sys/wait.h>
+
+struct hv_osdev_type_names { hwloc_obj_osdev_types_t type; const char *name; const char *longname; };
+extern struct hv_osdev_type_names names[];   /* traversal.c */
+static unsigned long known_os_mask(void) { unsigned long m = 0; int i; for (i = 0; i < 7; i++) m |= names[i].type; return m; }
+static sigjmp_buf jb;
+static unsigned long lineno;   /* input line number: identifies a case in the answers */
+static void on_sig(int s) { siglongjmp(jb, s == SIGABRT ? 2 : 1); }
+static void arm(void)
+{
+  struct itimerval it; memset(&it, 0, sizeof it); it.it_value.tv_usec = 150000;
+  setitimer(ITIMER_VIRTUAL, &it, NULL);
+}
+static void disarm(void)
+{
+  struct itimerval it; memset(&it, 0, sizeof it);
+  setitimer(ITIMER_VIRTUAL, &it, NULL);
+}
+/* st = 0 returned, 1 LOOP, 2 ASSERT */
+#define GUARDED(st, stmt) do { st = sigsetjmp(jb, 1); if (!st) { arm(); stmt; disarm(); } else disarm(); } while (0)
+
+static void hexout(const unsigned char *b, size_t n)
+{
+  size_t i;
+  if (!n) putchar('-');
+  for (i = 0; i < n; i++) printf("%02x", b[i]);
+}
+static size_t unhex(const char *h, unsigned char *out, size_t max)
+{
+  size_t n = 0;
+  if (h[0] == '-') return 0;
+  while (h[0] && h[1] && n < max) { unsigned v; if (sscanf(h, "%2x", &v) != 1) break; out[n++] = (unsigned char) v; h += 2; }
+  return n;
+}
+static char *unhex_str(const char *h)
+{
+  size_t l = strlen(h) / 2 + 1; char *s = malloc(l + 1);
+  size_t n = unhex(h, (unsigned char *) s, l); s[n] = 0; return s;
+}
+
+/* canonical rendering of hwloc_type_sscanf's observable result */
+static void sscanf_result(const char *s, long asz)
+{
+  hwloc_obj_type_t type = (hwloc_obj_type_t) 77;
+  union hwloc_obj_attr_u a, ref;
+  int r;
+  memset(&a, 0xa5, sizeof a); memset(&ref, 0xa5, sizeof ref);
+  r = hwloc_type_sscanf(s, &type, asz < 0 ? NULL : &a, asz < 0 ? 0 : (size_t) asz);
+  if (r < 0) { printf("-1%s", (type != 77 || memcmp(&a, &ref, sizeof a)) ? " STORED" : ""); return; }
+  printf("0 type=%u ", (unsigned) type);
+  if (!memcmp(&a, &ref, sizeof a)) printf("none");
+  else if (hwloc__obj_type_is_cache(type)) printf("cache %u %d", a.cache.depth, (int) a.cache.type);
+  else if (type == HWLOC_OBJ_GROUP) printf("group %u", a.group.depth);
+  else if (type == HWLOC_OBJ_BRIDGE) printf("bridge %d %d", (int) a.bridge.upstream_type, (int) a.bridge.downstream_type);
+  else if (type == HWLOC_OBJ_OS_DEVICE) printf("osdev %lu", (unsigned long) a.osdev.types);
+  else printf("other");
+}
+
+typedef int (*printer_t)(char *, size_t, void *);
+struct tsn_ctx { hwloc_obj_t obj; unsigned long flags; const char *sep; };
+static int call_tsn(char *b, size_t n, void *c) { struct tsn_ctx *x = c; return hwloc_obj_type_snprintf(b, n, x->obj, x->flags); }
+static int call_asn(char *b, size_t n, void *c) { struct tsn_ctx *x = c; return hwloc_obj_attr_snprintf(b, n, x->obj, x->sep, x->flags); }
+
+/* sizes printed: all of 0..needed+1 for texts up to 96 bytes, otherwise the boundaries of the fixed-size local buffers and of the text */
+static int size_wanted(size_t k, size_t need)
+{
+  if (need <= 96) return 1;
+  return k <= 3 || (k >= 24 && k <= 26) || (k >= 31 && k <= 33) || (k >= 63 && k <= 65) || (k >= 127 && k <= 129) || k + 1 >= need;
+}
+/* every size 0..needed+1 on exactly-sized blocks; returns the full text (malloc) or NULL */
+static char *all_sizes(const char *tag, const char *args, printer_t f, void *ctx)
+{
+  volatile int st; int need = 0; volatile size_t k; char *full = NULL;
+  GUARDED(st, need = f(NULL, 0, ctx));
+  if (st) { printf("%s#%lu %s %s\n", tag, lineno, args, st == 1 ? "LOOP" : "ASSERT"); return NULL; }
+  printf("%s#%lu %s need=%d\n", tag, lineno, args, need);
+  if (need < 0) return NULL;
+  for (k = 0; k <= (size_t) need + 1; k++) {
+    char *volatile b; int r = 0;
+    if (!size_wanted(k, (size_t) need)) continue;
+    b = k ? malloc(k) : NULL;
+    if (k) memset(b, 0xaa, k);
+    GUARDED(st, r = f(b, k, ctx));
+    if (st) { printf("%s#%lu size=%zu %s\n", tag, lineno, (size_t) k, st == 1 ? "LOOP" : "ASSERT"); free(b); return NULL; }
+    printf("%s#%lu size=%zu ret=%d buf=", tag, lineno, (size_t) k, r); hexout((unsigned char *) b, k); putchar('\n');
+    if (k == (size_t) need + 1) full = b; else free(b);
+  }
+  return full;
+}
+
+static void do_tsn(char *line)
+{
+  unsigned t, cd, ct, gd, bu, bd; unsigned long long os, flags;
+  struct hwloc_obj o; union hwloc_obj_attr_u a; struct tsn_ctx c; char *full; size_t n = strlen(line);
+  while (n && (line[n-1] == '\n')) line[--n] = 0;
+  if (sscanf(line, "tsn %u %u %u %u %u %u %llu %llu", &t, &cd, &ct, &gd, &bu, &bd, &os, &flags) != 8) { printf("%s BAD\n", line); return; }
+#define FILL_TSN(byte) do { \
+  memset(&o, byte, sizeof o); memset(&a, byte, sizeof a); o.attr = &a; o.type = (hwloc_obj_type_t) t; \
+  if (hwloc__obj_type_is_cache(o.type)) { a.cache.depth = cd; a.cache.type = (hwloc_obj_cache_type_t) ct; } \
+  else if (t == HWLOC_OBJ_GROUP) a.group.depth = gd; \
+  else if (t == HWLOC_OBJ_BRIDGE) { a.bridge.upstream_type = (hwloc_obj_bridge_type_t) bu; a.bridge.downstream_type = (hwloc_obj_bridge_type_t) bd; } \
+  else if (t == HWLOC_OBJ_OS_DEVICE) a.osdev.types = (hwloc_obj_osdev_types_t) os; } while (0)
+  FILL_TSN(0);
+  c.obj = &o; c.flags = (unsigned long) flags; c.sep = NULL;
+  full = all_sizes("tsn", line + 4, call_tsn, &c);
+  if (full) {
+    char g[256]; volatile int st; int r = 0;
+    printf("tsn#%lu rt ", lineno); sscanf_result(full, (long) sizeof(union hwloc_obj_attr_u)); putchar('\n');
+    free(full);
+    /* every other byte of the object and of the attribute union differs: the text must not */
+    FILL_TSN(0x5c);
+    GUARDED(st, r = hwloc_obj_type_snprintf(g, sizeof g, &o, (unsigned long) flags));
+    if (st) printf("tsn#%lu garb %s\n", lineno, st == 1 ? "LOOP" : "ASSERT");
+    else { printf("tsn#%lu garb ret=%d text=", lineno, r); hexout((unsigned char *) g, strlen(g)); putchar('\n'); }
+  }
+}
+
+static void do_asn(char *line)
+{
+  /* tokens */
+  char *tok[512]; int nt = 0; char *p, *save; struct hwloc_obj o; union hwloc_obj_attr_u a; struct tsn_ctx c;
+  char *copy = strdup(line); size_t n = strlen(line); unsigned t, i, ninfo; char *full; struct hwloc_info_s *infos = NULL;
+  while (n && (line[n-1] == '\n')) line[--n] = 0;
+  for (p = strtok_r(copy, " \n", &save); p && nt < 512; p = strtok_r(NULL, " \n", &save)) tok[nt++] = p;
+  if (nt < 25) { printf("%s BAD\n", line); free(copy); return; }
+  memset(&o, 0, sizeof o); memset(&a, 0, sizeof a); o.attr = &a;
+  t = (unsigned) strtoul(tok[1], NULL, 10); o.type = (hwloc_obj_type_t) t;
+  o.total_memory = strtoull(tok[2], NULL, 10);
+  if (t == HWLOC_OBJ_NUMANODE) a.numanode.local_memory = strtoull(tok[3], NULL, 10);
+  else if (hwloc__obj_type_is_cache(o.type) || t == HWLOC_OBJ_MEMCACHE) {
+    a.cache.size = strtoull(tok[4], NULL, 10); a.cache.linesize = (unsigned) strtoul(tok[5], NULL, 10); a.cache.associativity = (int) strtol(tok[6], NULL, 10);
+  } else if (t == HWLOC_OBJ_BRIDGE || t == HWLOC_OBJ_PCI_DEVICE) {
+    if (t == HWLOC_OBJ_BRIDGE) {
+      a.bridge.upstream_type = (hwloc_obj_bridge_type_t) strtoul(tok[7], NULL, 10);
+      a.bridge.downstream_type = (hwloc_obj_bridge_type_t) strtoul(tok[8], NULL, 10);
+      a.bridge.downstream.pci.domain = (unsigned) strtoul(tok[9], NULL, 10);
+      a.bridge.downstream.pci.secondary_bus = (unsigned char) strtoul(tok[10], NULL, 10);
+      a.bridge.downstream.pci.subordinate_bus = (unsigned char) strtoul(tok[11], NULL, 10);
+    }
+    a.pcidev.domain = (unsigned) strtoul(tok[12], NULL, 10); a.pcidev.bus = (unsigned char) strtoul(tok[13], NULL, 10);
+    a.pcidev.dev = (unsigned char) strtoul(tok[14], NULL, 10); a.pcidev.func = (unsigned char) strtoul(tok[15], NULL, 10);
+    a.pcidev.vendor_id = (unsigned short) strtoul(tok[16], NULL, 10); a.pcidev.device_id = (unsigned short) strtoul(tok[17], NULL, 10);
+    a.pcidev.class_id = (unsigned short) strtoul(tok[18], NULL, 10);
+    a.pcidev.linkspeed = strtof(tok[20], NULL);
+  }
+  c.sep = unhex_str(tok[22]); c.flags = strtoul(tok[23], NULL, 10); c.obj = &o;
+  ninfo = (unsigned) strtoul(tok[24], NULL, 10);
+  if ((int) (25 + 2 * ninfo) > nt) { printf("%s BAD\n", line); free(copy); return; }
+  if (ninfo) {
+    infos = calloc(ninfo, sizeof *infos);
+    for (i = 0; i < ninfo; i++) { infos[i].name = unhex_str(tok[25 + 2*i]); infos[i].value = unhex_str(tok[26 + 2*i]); }
+  }
+  o.infos.array = infos; o.infos.count = ninfo; o.infos.allocated = ninfo;
+  full = all_sizes("asn", line + 4, call_asn, &c);
+  free(full);
+  for (i = 0; i < ninfo; i++) { free(infos[i].name); free(infos[i].value); }
+  free(infos); free((char *) c.sep); free(copy);
+}
+
+static void do_ssc(char *line)
+{
+  char hex[4096]; long asz; int forked = line[3] == '!'; unsigned char *raw; size_t n; char *s;
+  if (sscanf(line + (forked ? 4 : 3), " %4095s %ld", hex, &asz) != 2) { printf("ssc BAD\n"); return; }
+  raw = malloc(strlen(hex) / 2 + 1); n = unhex(hex, raw, strlen(hex) / 2 + 1);
+  s = malloc(n + 1); memcpy(s, raw, n); s[n] = 0;   /* exactly-sized: the terminator is the last byte of the block */
+  printf("ssc %s %ld -> ", hex, asz);
+  if (!forked) sscanf_result(s, asz);
+  else {
+    pid_t pid; int status = 0;
+    fflush(stdout);
+    pid = fork();
+    if (pid == 0) {
+      if (!freopen("/dev/null", "w", stderr)) _exit(3);
+      sscanf_result(s, asz); fflush(stdout); _exit(0);
+    }
+    waitpid(pid, &status, 0);
+    if (!(WIFEXITED(status) && WEXITSTATUS(status) == 0)) printf("OOB");
+  }
+  putchar('\n');
+  free(s); free(raw);
+}
+
+/* ---------------- real topologies ---------------- */
+static void obj_line(hwloc_obj_t o)
+{
+  unsigned t = o->type, i;
+  unsigned cd = 0, ct = 0, gd = 0, bu = 0, bd = 0; unsigned long os = 0;
+  unsigned long long loc = 0, cs = 0; unsigned cl = 0; int ca = 0;
+  unsigned bdom = 0, bsec = 0, bsub = 0, pdom = 0, pbus = 0, pdev = 0, pfunc = 0, pven = 0, pdevid = 0, pcls = 0; float link = 0;
+  char lt[64];
+  if (hwloc__obj_type_is_cache(o->type) || t == HWLOC_OBJ_MEMCACHE) {
+    cd = o->attr->cache.depth; ct = o->attr->cache.type; cs = o->attr->cache.size; cl = o->attr->cache.linesize; ca = o->attr->cache.associativity;
+  } else if (t == HWLOC_OBJ_GROUP) gd = o->attr->group.depth;
+  else if (t == HWLOC_OBJ_NUMANODE) loc = o->attr->numanode.local_memory;
+  else if (t == HWLOC_OBJ_OS_DEVICE) os = o->attr->osdev.types;
+  if (t == HWLOC_OBJ_BRIDGE) {
+    bu = o->attr->bridge.upstream_type; bd = o->attr->bridge.downstream_type;
+    bdom = o->attr->bridge.downstream.pci.domain; bsec = o->attr->bridge.downstream.pci.secondary_bus; bsub = o->attr->bridge.downstream.pci.subordinate_bus;
+  }
+  if (t == HWLOC_OBJ_BRIDGE || t == HWLOC_OBJ_PCI_DEVICE) {
+    pdom = o->attr->pcidev.domain; pbus = o->attr->pcidev.bus; pdev = o->attr->pcidev.dev; pfunc = o->attr->pcidev.func;
+    pven = o->attr->pcidev.vendor_id; pdevid = o->attr->pcidev.device_id; pcls = o->attr->pcidev.class_id; link = o->attr->pcidev.linkspeed;
+  }
+  /* obj <tsn fields> | <asn fields up to LINKTXT> | N infos */
+  printf("obj depth=%d tsn %u %u %u %u %u %u %lu | asn %u %llu %llu %llu %u %d %u %u %u %u %u %u %u %u %u %u %u %u ",
+         o->depth, t, cd, ct, gd, bu, bd, os, t, (unsigned long long) o->total_memory, loc, cs, cl, ca, bu, bd, bdom, bsec, bsub,
+         pdom, pbus, pdev, pfunc, pven, pdevid, pcls);
+  hexout((const unsigned char *) hwloc_pci_class_string((unsigned short) pcls), strlen(hwloc_pci_class_string((unsigned short) pcls)));
+  snprintf(lt, sizeof lt, "%.2f", link);
+  printf(" %a ", (double) link); hexout((unsigned char *) lt, strlen(lt));
+  printf(" | %u", o->infos.count);
+  for (i = 0; i < o->infos.count; i++) {
+    putchar(' '); hexout((unsigned char *) o->infos.array[i].name, strlen(o->infos.array[i].name));
+    putchar(' '); hexout((unsigned char *) o->infos.array[i].value, strlen(o->infos.array[i].value));
+  }
+  putchar('\n');
+}
+
+/* the length contract evaluated on the C side for one real object and one flag word */
+static unsigned long contract_evals;
+static int contract_obj(printer_t f, struct tsn_ctx *c, const char *what)
+{
+  volatile int st; int need = 0, bad = 0; size_t k; char *full;
+  GUARDED(st, need = f(NULL, 0, c));
+  if (st) { printf("robj %s gp=%llu type=%u flags=%lu %s\n", what, (unsigned long long) c->obj->gp_index, (unsigned) c->obj->type, c->flags, st == 1 ? "LOOP" : "ASSERT"); return 1; }
+  full = malloc((size_t) need + 1);
+  GUARDED(st, f(full, (size_t) need + 1, c));
+  if (st) { free(full); return 1; }
+  if (strlen(full) != (size_t) need) { printf("robj %s gp=%llu flags=%lu BAD full strlen=%zu need=%d\n", what, (unsigned long long) c->obj->gp_index, c->flags, strlen(full), need); bad = 1; }
+  for (k = 1; k <= (size_t) need + 1 && !bad; k++) {
+    char *b = malloc(k); int r;
+    memset(b, 0xaa, k);
+    r = f(b, k, c); contract_evals++;
+    if (r != need || b[k - 1 < (size_t) need ? k - 1 : (size_t) need] != 0 || memcmp(b, full, k - 1 < (size_t) need ? k - 1 : (size_t) need)) {
+      printf("robj %s gp=%llu flags=%lu BAD size=%zu ret=%d need=%d\n", what, (unsigned long long) c->obj->gp_index, c->flags, k, r, need); bad = 1;
+    }
+    free(b);
+  }
+  free(full);
+  return bad;
+}
+
+static void do_topo(char *line)
+{
+  hwloc_topology_t t; int depth, d, err; hwloc_obj_t o; size_t n = strlen(line);
+  static const int special[] = { HWLOC_TYPE_DEPTH_NUMANODE, HWLOC_TYPE_DEPTH_MEMCACHE, HWLOC_TYPE_DEPTH_BRIDGE,
+                                 HWLOC_TYPE_DEPTH_PCI_DEVICE, HWLOC_TYPE_DEPTH_OS_DEVICE, HWLOC_TYPE_DEPTH_MISC };
+  static const unsigned long fl[] = { 0, 2, 4, 6, 1, 8, 16, 40, 63 };
+  unsigned long nobj = 0, nbad = 0; unsigned i, fi;
+  while (n && (line[n-1] == '\n')) line[--n] = 0;
+  hwloc_topology_init(&t);
+  hwloc_topology_set_all_types_filter(t, HWLOC_TYPE_FILTER_KEEP_ALL);
+  if (!strncmp(line, "topo xml ", 9)) err = hwloc_topology_set_xml(t, line + 9);
+  else if (!strncmp(line, "topo synthetic ", 15)) err = hwloc_topology_set_synthetic(t, line + 15);
+  else err = -1;
+  if (err < 0 || hwloc_topology_load(t) < 0) { printf("%s LOADFAIL\n", line); hwloc_topology_destroy(t); return; }
+  printf("%s LOADED\n", line);
+  depth = hwloc_topology_get_depth(t);
+  for (i = 0; i < (unsigned) depth + 6; i++) {
+    d = i < (unsigned) depth ? (int) i : special[i - depth];
+    for (fi = 0; fi < 2; fi++) {
+      /* all objects of one level print the same type text? (count distinct) */
+      char first[128] = "", cur[128]; unsigned cnt = 0, differ = 0; volatile int st;
+      o = NULL;
+      while ((o = hwloc_get_next_obj_by_depth(t, d, o)) != NULL) {
+        GUARDED(st, hwloc_obj_type_snprintf(cur, sizeof cur, o, fl[fi]));
+        if (st) { strcpy(cur, st == 1 ? "<LOOP>" : "<ASSERT>"); }
+        if (!cnt) strcpy(first, cur); else if (strcmp(first, cur)) differ++;
+        cnt++;
+      }
+      if (cnt) printf("level %d flags=%lu n=%u differ=%u first=%s\n", d, fl[fi], cnt, differ, first);
+    }
+    o = NULL;
+    while ((o = hwloc_get_next_obj_by_depth(t, d, o)) != NULL) {
+      struct tsn_ctx c; c.obj = o; c.sep = " ";
+      nobj++;
+      obj_line(o);
+      for (fi = 0; fi < sizeof fl / sizeof *fl; fi++) {
+        c.flags = fl[fi];
+        nbad += contract_obj(call_tsn, &c, "type");
+        nbad += contract_obj(call_asn, &c, "attr");
+      }
+      /* round trip on the real object, flags without SHORT_NAMES */
+      for (fi = 0; fi < 2; fi++) {
+        char b[128]; volatile int st; hwloc_obj_type_t ty; union hwloc_obj_attr_u a; int r, ok;
+        GUARDED(st, hwloc_obj_type_snprintf(b, sizeof b, o, fi ? 2 : 0));
+        if (st) continue;   /* reported by contract_obj */
+        r = hwloc_type_sscanf(b, &ty, &a, sizeof a);
+        ok = r == 0 && ty == o->type;
+        if (ok && hwloc__obj_type_is_cache(ty)) ok = a.cache.depth == o->attr->cache.depth && a.cache.type == o->attr->cache.type;
+        if (ok && ty == HWLOC_OBJ_GROUP) ok = a.group.depth == o->attr->group.depth;
+        if (ok && ty == HWLOC_OBJ_BRIDGE) ok = a.bridge.upstream_type == o->attr->bridge.upstream_type && a.bridge.downstream_type == o->attr->bridge.downstream_type;
+        if (ok && ty == HWLOC_OBJ_OS_DEVICE) ok = a.osdev.types == (o->attr->osdev.types & known_os_mask());   /* bits without a name cannot be printed */
+        if (!ok) { printf("robj roundtrip gp=%llu type=%u flags=%d BAD text=%s r=%d\n", (unsigned long long) o->gp_index, (unsigned) o->type, fi ? 2 : 0, b, r); nbad++; }
+      }
+    }
+  }
+  printf("%s DONE objs=%lu bad=%lu contract_evals=%lu\n", line, nobj, nbad, contract_evals);
+  hwloc_topology_destroy(t);
+}
+
 int main(void)
 {
-  char line[256];
+  static char line[1 << 20];
+  struct sigaction sa; memset(&sa, 0, sizeof sa); sa.sa_handler = on_sig; sigemptyset(&sa.sa_mask); sa.sa_flags = SA_NODEFER;
+  sigaction(SIGVTALRM, &sa, NULL); sigaction(SIGABRT, &sa, NULL);
+  setvbuf(stdout, NULL, _IOFBF, 1 << 16);
   while (fgets(line, sizeof line, stdin)) {
     int a, b;
+    lineno++;
     if (sscanf(line, "cmp %d %d", &a, &b) == 2)
       printf("cmp %d %d %d\n", a, b, hwloc_compare_types((hwloc_obj_type_t)a, (hwloc_obj_type_t)b));
     else if (sscanf(line, "kind %d", &a) == 1) {
@@ -18,6 +345,24 @@ int main(void)
              !!hwloc__obj_type_is_io(t), t == HWLOC_OBJ_MISC, !!hwloc__obj_type_is_cache(t),
              !!hwloc__obj_type_is_dcache(t), !!hwloc__obj_type_is_icache(t));
     }
+    else if (!strncmp(line, "tsn ", 4)) do_tsn(line);
+    else if (!strncmp(line, "asn ", 4)) do_asn(line);
+    else if (!strncmp(line, "ssc", 3)) do_ssc(line);
+    else if (sscanf(line, "tstr %d", &a) == 1) {
+      const char *s = hwloc_obj_type_string((hwloc_obj_type_t) a);
+      printf("tstr %d ", a); hexout((const unsigned char *) s, strlen(s)); printf(" rt "); sscanf_result(s, (long) sizeof(union hwloc_obj_attr_u)); putchar('\n');
+    }
+    else if (sscanf(line, "q cls %d", &a) == 1) {
+      const char *s = hwloc_pci_class_string((unsigned short) a);
+      printf("q cls %d ", a); hexout((const unsigned char *) s, strlen(s)); putchar('\n');
+    }
+    else if (!strncmp(line, "q lnk ", 6)) {
+      char lt[64]; float f = strtof(line + 6, NULL);
+      snprintf(lt, sizeof lt, "%.2f", f);
+      printf("q lnk %a ", (double) f); hexout((unsigned char *) lt, strlen(lt)); putchar('\n');
+    }
+    else if (!strncmp(line, "topo ", 5)) do_topo(line);
+    fflush(stdout);   /* so that the last answered line identifies a crashing case */
   }
   return 0;
 }
